@@ -42,7 +42,7 @@ fn gen(seed: u64, idx: u64, _tier: Tier) -> Plan {
     let bs = s.batch_size as u32;
     plan.server = Some(s);
     let sockets = 1 + rng.below(96) as u32;
-    let start = if mode == Mode::F { 20_000 } else { 1000 };
+    let start = if mode == Mode::F { 20_000 } else { 6000 };
     let mut t = start;
     let mut ctr = seed ^ 0xc09;
     let bursts = 2 + rng.below(6);
